@@ -1,4 +1,4 @@
-"""C07 — jar remapping: type-directed traversal completeness of the Mappable impls (A3) and entry-name handling."""
+"""C07 — jar remapping: type-directed traversal completeness of the Mappable impls (A3), entry-name handling, totality of the traversal (R07.4)."""
 from lib import c18_sym as S
 from lib import hir as H
 from lib import prov as PV
@@ -105,12 +105,19 @@ def classify(p, self_id, want_field, payload_env_name=None):
 
 
 # rules of sibling properties that decide code on this property's own call path: remap_jar answers every reference through the BRemapper default methods / map_desc (C06) and re-opens only if the writer is exact (C02)
-PREMISES = [("C06", ["R06.1", "R06.4"]), ("C02", ["R02.1", "R02.2", "R02.3"])]
+# (R02.9 argsize / invokeinterface: the `count` operand the writer emits for invokeinterface is computed from the remapped descriptor by
+# MethodDescriptorSlice::get_arguments_size — "instruction stream shape unchanged" and "classes are well-formed" depend on it; seed C07-10)
+PREMISES = [("C06", ["R06.1", "R06.4"]), ("C02", ["R02.1", "R02.2", "R02.3", "R02.9:argsize", "R02.9:invokeinterface"])]
 
 def run(F, R, tier):
     duke = F.crate("duke")
     box = F.crate("dukebox")
     carry = Carry(duke)
+    global _CARRY
+    _CARRY = carry
+    _BY_KEY.clear()
+    for b_ in box.bodies:
+        _BY_KEY.setdefault(b_["key"], b_)
     R.rule("R07.1", "A3 traversal completeness: in every impl Mappable/MappableWithClassName of dukebox::remap, each field / enum payload that can "
                     "contain a class, field or method reference (type-directed: reachable reference atom or a listed name-bearing string) is "
                     "produced by the remapping machinery applied to the same-named source position; every other position is the same-named source "
@@ -141,7 +148,7 @@ def run(F, R, tier):
         if not adt:
             R.inst("R07.1", "impl:%s" % ty, False, sp=b["sp"], detail="impl of Mappable for a type the rule does not know (not a duke ADT, not an atom)")
             continue
-        ctx = PV.Ctx(b["body"], roots={self_id: "self"})
+        ctx = _ctx(b["body"], {self_id: "self"})
         body = b["body"]
         if adt["kind"] == "struct":
             n_struct += 1
@@ -166,7 +173,10 @@ def run(F, R, tier):
                         clss = []
                         for a in asg:
                             pa = _prov(a["r"], ctx, body)
-                            clss.append((classify(pa, self_id, f["name"]), pa))
+                            ca = classify(pa, self_id, f["name"])
+                            if c and ca == "remapped":
+                                ca = _refine(a["r"], (ctx, body), self_id, f["name"]) or ca
+                            clss.append((ca, pa))
                         cls, pa = clss[-1]
                         ok = (cls == "remapped") if c else all(x in ("identity", "remapped") for x, _ in clss)
                         R.inst("R07.1", key + ("" if ok else "=" + cls.split(":")[0]), ok, sp=asg[-1]["sp"], got=pa.show(), nontrivial=bool(c),
@@ -197,6 +207,8 @@ def run(F, R, tier):
                         continue
                     # EnclosingMethod-style: a field remapped together with a sibling (class+method -> map_method_ref)
                     if c:
+                        if cls == "remapped":
+                            cls = _refine(e, (ctx, body), self_id, f["name"]) or cls
                         ok = cls == "remapped"
                         R.inst("R07.1", key + ("" if ok else "=" + cls.split(":")[0]), ok, sp=e["sp"], got=p.show(),
                                expect="remap machinery applied to self.%s" % f["name"],
@@ -276,9 +288,13 @@ def run(F, R, tier):
                         R.inst("R07.1", key + "=missing", False, sp=arm["sp"])
                         continue
                     env = {bid: PV.P(src={(bid, "payload", (fname,))}, place=True) for fname, bid in binds.items()}
-                    p = _prov(e, PV.Ctx(b["body"], roots={self_id: "self"}, env=env), b["body"])
+                    ectx = _ctx(b["body"], {self_id: "self"}, env)
+                    p = _prov(e, ectx, b["body"])
                     cls = classify(p, None, f["name"])
                     if c:
+                        if cls == "remapped":
+                            bid = binds.get(f["name"])
+                            cls = _refine(e, (ectx, b["body"]), None, f["name"], lambda x, bid=bid: _is_local_place(x, bid)) or cls
                         ok = cls == "remapped"
                         R.inst("R07.1", key + ("" if ok else "=" + cls.split(":")[0]), ok, sp=e["sp"], got=p.show(),
                                detail=None if ok else "reference-carrying payload (%s) is %s" % (f["ty"].replace(DUKE, ""), cls))
@@ -294,8 +310,12 @@ def run(F, R, tier):
     have = {b["impl_ty"].split("<")[0] for b in impls}
     r07_2(F, R, box)
     R.floor("R07.3", 8)
+    r07_4(R, box)
     return ("A3 type-directed traversal completeness over %d struct and %d enum Mappable impls (%d field/variant-payload cases, carries() computed "
-            "from duke's ADT table), atom→BRemapper-query table, owner-name argument provenance, jar entry-name handling and ClassRepr write table" % (n_struct, n_enum, n_cases))
+            "from duke's ADT table; a remapped position is the remap machinery applied to the same-named source on EVERY alternative of its value, "
+            "looking through locals, private helpers, local closures and plumbing), atom→BRemapper-query table, owner-name argument provenance, jar "
+            "entry-name handling and ClassRepr write table, totality of the traversal (no error exit / panic / fallible foreign call of its own in "
+            "dukebox::remap)" % (n_struct, n_enum, n_cases))
 
 
 def _is_self_field(e, self_id, fname):
@@ -303,10 +323,16 @@ def _is_self_field(e, self_id, fname):
     return bool(root) and root[0] == self_id and [x for x in path if not x.startswith(".")] == [fname]
 
 
-def _optionness(cond, self_id, fname):
-    """`self.<f>.is_none()` -> "None", `self.<f>.is_some()` -> "Some" (through `!`), else None."""
+def _is_local_place(e, lid):
+    """e is the local `lid` itself (through refs / as_ref() / clone() adaptors)."""
+    root, path = H.place_root(e)
+    return lid is not None and bool(root) and root[0] == lid and not [x for x in path if not x.startswith(".")]
+
+
+def _optionness(cond, is_src):
+    """`<src>.is_none()` -> "None", `<src>.is_some()` -> "Some" (through `!`), else None."""
     c0, neg = H.negate_peel(cond)
-    if c0.get("k") == "mcall" and c0["name"] in ("is_none", "is_some") and _is_self_field(c0["recv"], self_id, fname):
+    if c0.get("k") == "mcall" and c0["name"] in ("is_none", "is_some") and is_src(c0["recv"]):
         none = (c0["name"] == "is_none") != neg
         return "None" if none else "Some"
     return None
@@ -335,37 +361,41 @@ def _pat_option(p):
     return None
 
 
-def _known_absent(body, node, self_id, fname):
+def _known_absent(body, node, self_id, fname, is_src=None):
     """True when every evaluation of `node` happens on a path where `self.<fname>` is None — whatever the spelling of the test:
     else-branch of `if let Some(..) = self.f`, the `else` block of `let Some(..) = self.f else {..}`, the `None`/catch-all arm of a
-    `match self.f`, `if self.f.is_none()` / the code after `if self.f.is_some() { return .. }`."""
+    `match self.f`, `if self.f.is_none()` / the code after `if self.f.is_some() { return .. }`.
+    `is_src` (optional) replaces the test "this expression is self.<fname>" (enum payloads: the binding of the payload)."""
+    if is_src is None:
+        def is_src(x):
+            return _is_self_field(x, self_id, fname)
     for kind, cond, pol in H.path_conditions(body, node):
-        if kind == "iflet" and _is_self_field(cond["init"], self_id, fname):
+        if kind == "iflet" and is_src(cond["init"]):
             po = _pat_option(cond["pat"])
             if (po == "Some" and pol is False) or (po == "None" and pol is True):
                 return True
         elif kind == "arm":
             m, ai = cond, pol
-            if _is_self_field(m["scrut"], self_id, fname) and "guard" not in m["arms"][ai]:
+            if is_src(m["scrut"]) and "guard" not in m["arms"][ai]:
                 po = _pat_option(m["arms"][ai]["pat"])
                 earlier = [_pat_option(a["pat"]) for a in m["arms"][:ai] if "guard" not in a]
                 if po == "None" or (po == "any" and "Some" in earlier):
                     return True
         elif kind == "if":
-            o = _optionness(cond, self_id, fname)
+            o = _optionness(cond, is_src)
             if (o == "None" and pol) or (o == "Some" and not pol):
                 return True
         elif kind == "after-exit":
-            if _optionness(cond, self_id, fname) == "Some":
+            if _optionness(cond, is_src) == "Some":
                 return True
         elif kind == "letelse":
-            if _is_self_field(cond["init"], self_id, fname) and _pat_option(cond["pat"]) == "None":
+            if is_src(cond["init"]) and _pat_option(cond["pat"]) == "None":
                 return True
     # inside the diverging `else` block of `let Some(..) = self.f else { .. }` the pattern did not match
     chain = (H.parents_of(body, node) or []) + [node]
     for i, p in enumerate(chain[:-1]):
         if p.get("k") == "let" and p.get("els") is chain[i + 1] and "init" in p:
-            if _is_self_field(p["init"], self_id, fname) and _pat_option(p["pat"]) == "Some":
+            if is_src(p["init"]) and _pat_option(p["pat"]) == "Some":
                 return True
     return False
 
@@ -378,6 +408,15 @@ def _prov(e, ctx, body):
     (`let mut out = Vec::new(); for x in self.f { out.push(x.remap(r)?) }` ≡ `self.f.into_iter().map(..).collect()`) gets the
     provenance of what is put into it."""
     p = PV.prov(e, ctx)
+    e0 = H.peel(e, tries=True)
+    hb = _helper_body(e0, body)
+    if hb is not None:
+        # a private helper of the crate wrapped around the expression (`fn remap_outer(..) { outer.remap(remapper) }`): what the helper
+        # returns, with its parameters standing for the arguments, is part of the provenance (the helper's own name stays in `calls`)
+        hctx = _helper_ctx(e0, hb, ctx)
+        for r in _return_exprs(hb):
+            p = p.union(PV.prov(r, hctx))
+        p.const = not p.src
     l = H.local_of(H.peel(e, tries=True))
     if not l or l[0] in ctx.roots or l[0] in ctx.env:
         return p
@@ -420,6 +459,369 @@ def _returns_self(body, self_id):
             if l and l[0] == self_id:
                 return True
     return False
+
+
+# ---------------------------------------------------------------------------------------------------------------------------------
+# heads: what an output expression IS on each of its alternatives (seed C07-11: one match arm cuts the new outer class out of the new
+# inner-class name instead of asking the remapper; the union provenance of all arms still contains `remap` and `self.outer_class`)
+
+_BY_KEY = {}          # def key -> body of the dukebox crate (filled by run(); private helpers are followed)
+_CARRY = None         # the Carry table of run() (which ADT fields can hold a reference)
+
+# calls that hand their receiver on: identity adaptors, Option/Result/iterator plumbing, error decoration
+SPINE_RECV = set(PV.IDENTITY_CALLS) | {"transpose", "context", "with_context", "map_err", "unwrap", "expect", "into_boxed_slice", "by_ref"}
+SPINE_CLOSURE = {"map", "and_then"}                    # the value is what the closure returns (for the elements of the receiver)
+SPINE_ALT_ARG = {"unwrap_or", "or"}                    # receiver or argument
+SPINE_ALT_CLOSURE = {"unwrap_or_else", "or_else"}      # receiver or what the closure returns
+EMPTY_CTORS = ("new", "with_capacity", "default")
+MUTATORS = {"retain", "retain_mut", "truncate", "remove", "swap_remove", "shift_remove", "pop", "drain", "clear", "split_off", "dedup", "dedup_by",
+            "dedup_by_key", "sort", "sort_by", "sort_by_key", "sort_unstable", "sort_unstable_by", "sort_unstable_by_key", "sort_by_cached_key",
+            "reverse", "rotate_left", "rotate_right", "swap"}
+
+
+def _ctx(body, roots, env=None):
+    """PV.Ctx whose pattern binders look through a tuple scrutinee: in `match (&self.a, x.f()) { (p, q) => .. }` the bindings of `p` come from
+    `&self.a` only and those of `q` from `x.f()` only (lib/prov unions the whole tuple).  Local sharpening; lib/prov.py is untouched."""
+    ctx = PV.Ctx(body, roots=roots, env=env)
+    b = ctx.binders()
+    for lid, (kind, scrut, path) in list(b.items()):
+        s0 = H.peel(scrut)
+        while s0.get("k") == "tuple" and path and path[0].isdigit() and int(path[0]) < len(s0["es"]):
+            scrut, path = s0["es"][int(path[0])], path[1:]
+            s0 = H.peel(scrut)
+        b[lid] = (kind, scrut, path)
+    return ctx
+
+
+def _helper_body(n, root=None):
+    """{params, body, key} of what a call resolves to when that is a plain (non-trait, non-remap) function of the dukebox crate, or a
+    closure bound by a `let` of the enclosing function `root` (`let field = |r: FieldRef| r.remap(remapper); .. field(x)?`)."""
+    if n.get("k") not in ("call", "mcall"):
+        return None
+    c = n.get("callee") or {}
+    if n.get("k") == "call" and c.get("r") == "local" and root is not None:
+        init = H.let_init_of(root, c["id"])
+        i0 = H.peel(init) if init is not None else None
+        if i0 is not None and i0.get("k") == "closure":
+            return {"params": i0["params"], "body": i0["body"], "key": i0.get("key"), "closure": True}
+        return None
+    if c.get("r") != "def" or c.get("trait") or c.get("dk", "").startswith("Ctor") or H.callee_name(n) in REMAP_CALLS:
+        return None
+    return _BY_KEY.get(c.get("inst_key") or c.get("key"))
+
+
+def _helper_ctx(n, hb, ctx):
+    env = {}
+    for prm, a in zip(hb["params"], H.call_args(n)):
+        pa = PV.prov(a, ctx)
+        for (i, _nm) in H.pat_bindings(prm):
+            env[i] = P_(pa)
+    if hb.get("closure"):
+        # a local closure sees the locals of the enclosing function
+        e2 = dict(ctx.env)
+        e2.update(env)
+        return _ctx(ctx.root, ctx.roots, e2)
+    return _ctx(hb["body"], {}, env)
+
+
+def P_(p):
+    return PV.P(p.src, p.calls, p.place, p.const, p.ctors)
+
+
+def _dead_ids(root):
+    """ids of the nodes that follow a diverging statement of their block (`return Ok(self); todo!()`): never evaluated."""
+    dead = set()
+    for n in H.walk(root):
+        if n.get("k") == "block":
+            items = n["stmts"] + ([n["tail"]] if "tail" in n else [])
+            for i, st in enumerate(items):
+                if H.diverges(st):
+                    for t in items[i + 1:]:
+                        for x in H.walk(t):
+                            dead.add(id(x))
+                    break
+    return dead
+
+
+def _return_exprs(hb):
+    """The expressions a function body can deliver: its tail (if reached) and every live `return <non-error>`."""
+    root = hb["body"]
+    out = [] if H.diverges(root) else [root]
+    dead = _dead_ids(root)
+    for x in H.walk(root, into_closures=False):
+        if x.get("k") == "ret" and "e" in x and id(x) not in dead and not H.is_err_exit(x):
+            out.append(x["e"])
+    return out
+
+
+def _heads(n, cx, depth=0):
+    """[(kind, node, cx)] — what the value of `n` is, alternative by alternative, looking through locals, blocks, `?`, refs, constructors,
+    plumbing and private helpers:  kind = "remap" (a call of the remap machinery) | "place" (a source place / binding as it is) |
+    "const" (no data) | "opaque:<callee>" (the result of any other call)."""
+    ctx, root = cx
+    if depth > 40:
+        return [("opaque:<deep>", n, cx)]
+    n = H.peel(n, casts=True, tries=True)
+    if H.diverges(n):
+        return []
+    k = n.get("k")
+    d = depth + 1
+
+    def many(nodes):
+        out = []
+        for x in nodes:
+            out += _heads(x, cx, d)
+        return out
+
+    if k == "lit":
+        return [("const", n, cx)]
+    if k == "path":
+        r = n["res"]
+        if r.get("r") != "local":
+            return [("const", n, cx)]
+        lid = r["id"]
+        if lid in ctx.roots or lid in ctx.env:
+            return [("place", n, cx)]
+        init = H.let_init_of(root, lid)
+        fills = [x for x in H.walk(root) if x.get("k") == "mcall" and x["name"] in FILL_CALLS and H.local_of(x["recv"]) and H.local_of(x["recv"])[0] == lid]
+        assigns = [x["r"] for x in H.walk(root) if x.get("k") == "assign" and x["l"].get("k") == "path" and H.local_of(x["l"]) and H.local_of(x["l"])[0] == lid]
+        if init is not None or assigns:
+            # the local is edited in place after it was filled (`fields.dedup_by_key(..)`, `retain`, `sort`): not the remapper's answer any more
+            out = [("opaque:%s" % x["name"], x, cx) for x in H.walk(root) if x.get("k") == "mcall" and x["name"] in MUTATORS
+                   and H.local_of(x["recv"]) and H.local_of(x["recv"])[0] == lid]
+            if init is not None:
+                i0 = H.peel(init, tries=True)
+                starts_empty = fills and i0.get("k") in ("call", "mcall") and H.callee_name(i0) in EMPTY_CTORS
+                if not starts_empty:
+                    out += _heads(init, cx, d)
+            for f_ in fills:
+                out += many(f_["args"])
+            out += many(assigns)
+            return out
+        b = ctx.binders().get(lid)
+        if b is not None:
+            return _heads(b[1], cx, d)          # bound by a pattern: (a part of) what the scrutinee is
+        return [("place", n, cx)]               # closure parameter
+    if k in ("field", "index", "repeat"):
+        return _heads(n["e"], cx, d)
+    if k == "block":
+        return _heads(n["tail"], cx, d) if "tail" in n else [("const", n, cx)]
+    if k == "if":
+        return _heads(n["then"], cx, d) + (_heads(n["else"], cx, d) if "else" in n else [("const", n, cx)])
+    if k == "match":
+        return many(a["body"] for a in n["arms"])
+    if k == "struct":
+        # a composite built in place (`MethodNameAndDesc { name: r.name, desc: r.desc }`): its reference-carrying components (type-directed,
+        # like R07.1 itself); a component that cannot hold a reference may be anything
+        adt = (_CARRY.duke.adts.get(n.get("adt")) if _CARRY else None)
+        keep = None
+        if adt:
+            vs = [v for v in adt["variants"] if adt["kind"] != "enum" or v["name"] == n.get("variant")]
+            if len(vs) == 1:
+                keep = {f["name"] for f in vs[0]["fields"] if _CARRY.field(n["adt"], n.get("variant") if adt["kind"] == "enum" else None, f)}
+        parts = [f["e"] for f in n["fields"] if keep is None or f["name"] in keep] + ([n["base"]] if isinstance(n.get("base"), dict) else [])
+        return many(parts) if parts else [("const", n, cx)]
+    if k in ("tuple", "array"):
+        return many(n["es"]) if n["es"] else [("const", n, cx)]
+    if k in ("call", "mcall"):
+        name = H.callee_name(n)
+        c = n.get("callee") or {}
+        if k == "call" and c.get("dk", "").startswith("Ctor"):
+            if c.get("variant") == "Err" and (c.get("adt") or "").endswith("Result"):
+                return []                               # the failure path delivers no value (R07.4 looks at it)
+            return many(n["args"]) if n["args"] else [("const", n, cx)]
+        if name in REMAP_CALLS:
+            return [("remap", n, cx)]
+        hb = _helper_body(n, root)
+        if hb is not None:
+            hcx = (_helper_ctx(n, hb, ctx), root if hb.get("closure") else hb["body"])
+            out = []
+            for r in _return_exprs(hb):
+                out += _heads(r, hcx, d)
+            return out
+        args = H.call_args(n)
+        if k == "call" and c.get("r") == "local":
+            return [("place", n, cx)]                   # a closure handed in as a parameter: whatever the caller supplies
+        if k == "call":
+            if (name in PV.IDENTITY_CALLS and len(args) == 1) or (name in SPINE_RECV and args and c.get("dk") == "AssocFn"):
+                return _heads(args[0], cx, d)           # `Into::into(x)`, `Context::context(r, "..")`: the method spelled as a path
+            if not args and name in EMPTY_CTORS:
+                return [("const", n, cx)]
+            return [("opaque:%s" % name, n, cx)]
+        a0 = H.peel(n["args"][0]) if n["args"] else None
+        if name in SPINE_RECV:
+            return _heads(n["recv"], cx, d)
+        if name in SPINE_CLOSURE and a0 is not None:
+            if a0.get("k") == "closure":
+                return _heads(a0["body"], cx, d)
+            if a0.get("k") == "path" and ((H.ctor_of(a0) or (None, None))[1] in ("Some", "Ok")
+                                          or (a0["res"].get("path") or "").rsplit("::", 1)[-1] in PV.IDENTITY_CALLS):
+                return _heads(n["recv"], cx, d)
+        if name in SPINE_ALT_ARG and a0 is not None:
+            return _heads(n["recv"], cx, d) + _heads(a0, cx, d)
+        if name in SPINE_ALT_CLOSURE and a0 is not None and a0.get("k") == "closure":
+            return _heads(n["recv"], cx, d) + _heads(a0["body"], cx, d)
+        return [("opaque:%s" % name, n, cx)]
+    return [("opaque:<%s>" % k, n, cx)]
+
+
+def _is_none(n):
+    c = H.ctor_of(n)
+    return bool(c) and c[1] == "None"
+
+
+def _refine(e, cx, self_id, fname, is_src=None):
+    """For an output position whose union provenance says `remapped`: None when EVERY alternative of the value is a call of the remap machinery
+    applied to the same-named source position (a `None` where the source is known to be None counts), else the class of the first alternative
+    that is something else:  derived (result of another call / remap of another position), partly-identity, partly-dropped."""
+    ctx, root = cx
+    for kind, node, hcx in _heads(e, cx):
+        what = H.render(node)[:70]
+        if kind == "remap":
+            c = classify(PV.prov(node, hcx[0]), self_id, fname)
+            if c != "remapped":
+                return "derived:one alternative, `%s`, is %s" % (what, c)
+        elif kind == "const":
+            if hcx[1] is root and _is_none(node) and _known_absent(root, node, self_id, fname, is_src):
+                continue
+            return "partly-dropped:one alternative is the constant `%s`" % what
+        elif kind == "place":
+            return "partly-identity:one alternative, `%s`, is not remapped" % what
+        else:
+            return "derived:one alternative is the result of `%s` (%s), not an answer of the remapper" % (what, kind.split(":", 1)[1])
+    return None
+
+
+# ---------------------------------------------------------------------------------------------------------------------------------
+# R07.4: the traversal refuses nothing by itself (seed C07-9: `bail!` when two remapped fields share a name)
+
+PANIC_PATHS = ("core::panicking::", "std::rt::begin_panic", "std::rt::panic_fmt", "core::panicking::panic")
+JAR_LEVEL = {"dukebox::remap::remap", "dukebox::remap::remap_jar_entry_name", "dukebox::remap::remap_jar_entry_name_java",
+             "dukebox::remap::remap_class", "dukebox::remap::remap_other"}
+
+
+def _res_variant(p):
+    p0 = H.pat_peel(p)
+    if p0.get("k") == "wild" or (p0.get("k") == "bind" and "sub" not in p0):
+        return "any"
+    v = H.pat_variant(p0)
+    return v[1] if v and v[1] in ("Ok", "Err") else None
+
+
+def _err_scrutinees(root, n):
+    """Expressions known to be `Err(..)` whenever `n` is evaluated (n sits in the `Err` arm / the else of an `Ok` pattern / under `.is_err()`)."""
+    out = []
+    chain = (H.parents_of(root, n) or []) + [n]
+    for i, p in enumerate(chain[:-1]):
+        if p.get("k") == "let" and p.get("els") is chain[i + 1] and "init" in p and _res_variant(p["pat"]) == "Ok":
+            out.append(p["init"])
+        # a closure that only runs on the error of its receiver: `r.or_else(|e| Err(e.context("..")))`
+        if p.get("k") == "mcall" and p["name"] in ("or_else", "map_err", "unwrap_or_else") and "Result<" in (H.peel(p["recv"], refs=False).get("ty") or "Result<") \
+                and any(a is chain[i + 1] for a in p["args"]):
+            out.append(p["recv"])
+    for kind, cond, pol in H.path_conditions(root, n):
+        if kind == "arm":
+            v = _res_variant(cond["arms"][pol]["pat"])
+            earlier = [_res_variant(a["pat"]) for a in cond["arms"][:pol]]
+            if v == "Err" or (v == "any" and "Ok" in earlier):
+                out.append(cond["scrut"])
+        elif kind == "iflet":
+            v = _res_variant(cond["pat"])
+            if (v == "Err" and pol is True) or (v == "Ok" and pol is False):
+                out.append(cond["init"])
+        elif kind == "letelse":
+            if _res_variant(cond["pat"]) == "Err":
+                out.append(cond["init"])
+        elif kind in ("if", "after-exit"):
+            c0, neg = H.negate_peel(cond)
+            if c0.get("k") == "mcall" and c0["name"] in ("is_err", "is_ok") and not c0["args"]:
+                base = (bool(pol) if kind == "if" else False) != neg
+                if base == (c0["name"] == "is_err"):
+                    out.append(c0["recv"])
+    return out
+
+
+def _closure_driven(n):
+    """A std combinator that only fails when the closure it drives fails (`try_for_each`, `try_fold`, `map(..).sum::<Result<..>>()` ..):
+    the closure body lies in the same function and is checked itself (`ok_or_else` is not one of them: it is reported by name)."""
+    if n.get("k") != "mcall" or n["name"] in ("ok_or", "ok_or_else"):
+        return False
+    path = (n.get("callee") or {}).get("path") or ""
+    return path.startswith(("core::", "alloc::", "std::")) and any(H.peel(a).get("k") == "closure" for a in n["args"])
+
+
+def _short_path(p):
+    import re
+    return re.sub(r"\b(?:duke|dukebox|quill|core|alloc|std)(?:::[a-z_][a-z_0-9]*)*::", "", p or "?")
+
+
+def r07_4(R, box):
+    R.rule("R07.4", "totality of the traversal: no function of dukebox::remap refuses an entry, a class or a part of a class by itself — every error "
+                    "exit (bail!/ensure!/return Err/an Err value/ok_or), every panic (panic!/assert!/unreachable!/todo! that can be reached) is the "
+                    "propagation of a failed call (`?`, the Err arm of a call result), and inside the Mappable impls and their helpers the only calls "
+                    "that can fail are the remap machinery (BRemapper queries, remap/remap_with_class_name, private helpers checked the same way)")
+    queue = [b for b in box.bodies if b["key"].startswith("dukebox::remap::")]
+    seen = {b["key"] for b in queue}
+    n = 0
+    while queue:
+        b = queue.pop(0)
+        n += 1
+        root = b["body"]
+        strict = b["key"] not in JAR_LEVEL
+        cx = (_ctx(root, {}), root)
+        dead = _dead_ids(root)
+        counted = set()
+        bad = []
+
+        def where(x):
+            cs = H.path_conditions(root, x)
+            for kind, cn, pol in reversed(cs):
+                if kind in ("if", "after-exit"):
+                    return " when `%s` is %s" % (H.render(cn)[:70], bool(pol) if kind == "if" else False)
+                if kind == "arm":
+                    return " in the arm `%s`" % H.render_pat(cn["arms"][pol]["pat"])[:50]
+                if kind in ("iflet", "letelse"):
+                    return " on `%s`" % H.render_pat(cn["pat"])[:50]
+            return ""
+
+        def propagation(x):
+            ss = _err_scrutinees(root, x)
+            if not ss:
+                return False
+            if not strict:
+                return True
+            return any(not [h for h in _heads(s_, cx) if h[0].startswith("opaque")] for s_ in ss)
+
+        for x in H.walk(root):
+            if id(x) in dead:
+                continue
+            k = x.get("k")
+            if k == "ret" and H.is_err_exit(x):
+                for y in H.walk(x):
+                    counted.add(id(y))
+                if not propagation(x):
+                    bad.append("own error exit%s" % where(x))
+            elif k == "call" and id(x) not in counted and (H.ctor_of(x) or (None, None))[1] == "Err":
+                if not propagation(x):
+                    bad.append("own `Err(..)` value%s" % where(x))
+            elif k == "call" and (H.callee_path(x) or "").startswith(PANIC_PATHS):
+                bad.append("panic (%s)%s" % ("/".join(m for m in (x.get("mac") or []) if not m.startswith(("$", "desugar"))) or "panic", where(x)))
+            elif k == "mcall" and x["name"] in ("ok_or", "ok_or_else"):
+                bad.append("`%s`: an absent value is turned into an error%s" % (x["name"], where(x)))
+            elif k == "try" and strict and "Result<" in (x["e"].get("ty") or "Result<"):      # `?` on an Option is no error exit
+                for kind, node, _cx in _heads(x["e"], cx):
+                    if kind.startswith("opaque") and not _closure_driven(node) and H.callee_name(node) not in ("ok_or", "ok_or_else"):
+                        bad.append("`?` on `%s`: a call that is not the remap machinery can fail" % H.render(node)[:70])
+            if strict and k in ("call", "mcall"):
+                hb = _helper_body(x)
+                if hb is not None and not hb.get("closure") and hb["key"] not in seen:
+                    seen.add(hb["key"])
+                    queue.append(hb)
+        R.inst("R07.4", "total:%s" % _short_path(b["path"]), not bad, sp=b["sp"], got=bad,
+               expect="no error exit / panic of its own; only the remap machinery can fail",
+               detail=None if not bad else "remapping refuses input by itself: for such a class / entry there is no remapped jar at all")
+    R.floor("R07.4", 36)
+    return n
 
 
 def _atom_or_plumbing(R, b, ty, self_id):
